@@ -42,6 +42,13 @@ def run(t):
         run.sample(s)
     for f in o["failures"]:
         run.violation(f["key"], f["desc"], f["replay"])
+    # a key lookup that resolves to a different key than the one the caller holds (rotation behind the worker RPC):
+    # the signature must come from the pinned key or fail - never verify only under another key
+    o2 = parse_vh_json(run_vh(vh, ["worker-classify"], timeout=300), "worker-classify")
+    run.cov["evaluations"] += o2["evaluations"]
+    for f in o2["failures"]:
+        if f["key"].get("kind") == "pin":
+            run.violation(f["key"], f["desc"], f["replay"])
     run.cov["rule"] = (f"all {len(g.beh)} configurations of KeyCert_Gen.cfg: private key in the token (RSA a/b, P-256 a/b, P-384) x X.509 source "
                        "(file for key k', chain file leaf-only/leaf-first/leaf-last/leaf-middle, certificate blob from the token) x PGP "
                        "certificate for key k'' x path; each loaded through the real signinit/certloader and signed on a fixture; "
